@@ -13,6 +13,7 @@ class Session:
         self.rnd = random.Random(seed())
         self.n_self = translator_selftest(self.pool)
         self.replayed = 0
+        self.patch_undecided = set()
         self.rep.assumptions += [
             "paths are all strings over Unicode scalar values U+0000..U+2FFFF (the SMT-LIB alphabet), of any length; U+30000..U+10FFFF and non-UTF-8 OS paths are outside the claim",
             "regex-automata matches exactly the language of the regex-syntax 0.8.11 HIR of the pattern text (the HIR is what the translator reads)",
@@ -49,6 +50,9 @@ class Session:
             if row and "smt" in row:
                 tasks.append((("patch", k), build_query(k, row["smt"])))
         res = self.pool.solve(tasks, keep_unsat=False)
+        # a patched obligation the solver cannot decide: the counterexample can be neither
+        # attributed nor reported as new; it is counted as undecided
+        self.patch_undecided = {k[1] for k, v in res.items() if v[0] in ("unknown", "error")}
         return {k[1] for k, v in res.items() if v[0] == "unsat"}
 
     def finish(self, programs, extra=None, inconclusive=None):
@@ -64,7 +68,8 @@ class Session:
             "solver_s": round(self.pool.solver_s, 2),
             "build_s": round(self.build_s, 1),
             "selftest_vectors": self.n_self,
-            "second_solver": {"engine": "z3 4.8.12", "checked": xs[0], "agreed": xs[1], "unknown": xs[2]},
+            "second_solver": {"engine": "z3 4.8.12", "checked": xs[0], "agreed": xs[1], "unknown": xs[2],
+                              "spurious_sat_refuted_by_ground_evaluation": getattr(cross_check_unsat, "spurious", 0)},
             "bounds": "programs: DESIGN.md 3.2 (%s tier); paths: unbounded length" % tier(),
         }
         if extra:
